@@ -64,6 +64,13 @@ def find_state(self, state_name):
 '''
 
 
+REF_LIST_TO_PARAMETERS = """
+def lark_list_to_parameters(s, cls):
+    i, components = find_components(s)
+    return tuple([tree2parameter(p, components=components, cls=cls) for p in s[i:] if isinstance(p, lark.Tree)])
+"""
+
+
 def run(ctx: Ctx):
     sm = ctx.sm
     ctx.assume("that every concrete ill-formed text raises is NOT decided (needs the loader executed); what is decided is that the guards exist, see every definition and cannot be bypassed")
@@ -71,6 +78,18 @@ def run(ctx: Ctx):
     # ---- R08.a duplicate detection ---------------------------------------------------------
     ctx.rule("R08.a", "duplicate detection sees every definition: the transformer rejects a redefinition before atoms are merged in sets; gather_atoms records every kind, tagged; the predicate is 'more than one distinct value'", floor=10)
     check_redefinition_guard(ctx, "R08.a")
+    from . import util as _u8a
+
+    _u8a.same_as_reference(
+        ctx,
+        "R08.a",
+        "transformer.py",
+        "lark_list_to_parameters",
+        REF_LIST_TO_PARAMETERS,
+        "one-atom-per-entry",
+        "every entry of a states(...) / parameters(...) block becomes an atom (two entries with one name are both handed on, to be rejected)",
+        "lark_list_to_parameters does not hand every entry of the block on as an atom of its own: entries are merged or dropped before the redefinition check can see them (a name listed twice in one block silently keeps one of its values)",
+    )
 
     from sa import av as _av
 
@@ -266,6 +285,19 @@ def run(ctx: Ctx):
             if isinstance(st, ast.Try):
                 ctx.fail("R08.c", f"{rel}::<module>::try", "module-level try/except is not in the vetted table", f"{rel}:{st.lineno}")
     check_undefined_symbol(ctx, "R08.c")
+    from . import util as _u8c
+    from .c01 import REF_SORT_ASSIGNMENTS
+
+    _u8c.same_as_reference(
+        ctx,
+        "R08.c",
+        "ode.py",
+        "sort_assignments",
+        REF_SORT_ASSIGNMENTS,
+        "every-dependency-is-an-edge",
+        "every dependency of every assignment - its own name included - is an edge of the graph handed to graphlib",
+        "sort_assignments does not hand every dependency of every assignment to the topological sorter (a dependency that is dropped - e.g. the assignment's own name - is a cycle graphlib no longer sees: `u = a*x + b*u` would be accepted)",
+    )
     sa = sm.func("ode.py", "sort_assignments")
     ctx.check(not any(isinstance(n, ast.Try) for n in ast.walk(sa.node)) and any(isinstance(c, ast.Call) and norm(c.func).endswith("static_order") for c in ast.walk(sa.node)), "R08.c", sa.key("cycle"), "graphlib.CycleError propagates from static_order()", "sort_assignments catches exceptions around the topological sort (cyclic definitions could be accepted)", sa.where())
 
@@ -315,6 +347,13 @@ def check_undefined_symbol(ctx: Ctx, rule: str):
     lenient = [g for g in A.get_log if _av.find_all(cv, "sub") and any(x[1] == g[1] and x[2] == g[2] for x in _av.find_all(cv, "sub"))]
     if lenient:
         ctx.fail(rule, key, f"build_expression: an undefined symbol is not turned into MissingSymbolError: the name is looked up with {_av.show(lenient[0][1])}.get(...), which gives None for an undefined name instead of failing", e2.where())
+        return
+    from .c03 import _branches as _br8
+
+    leaves = [leaf for _c, leaf in _br8(cv)]
+    fabricated = [x for x in leaves if x[0] == "call" and x[1].split(".")[-1] in ("Symbol", "Dummy", "symbols", "Function", "Wild")]
+    if fabricated:
+        ctx.fail(rule, key, f"build_expression: a name is turned into a fresh symbol ({_av.show(fabricated[0])[:80]}) on some path instead of being looked up in the symbol table: an undefined name is accepted silently and the generated code reads an undefined variable", e2.where())
         return
     if cv[0] != "sub":
         ctx.undecided(rule, key, f"`variable` nodes are not resolved by a subscript lookup ({_av.show(cv)[:100]}); the error for undefined names is not judged", e2.where())
